@@ -91,6 +91,16 @@ def check(run, prog):
         if out is not None:
             ck.same("R3", fi.where, f"empty input ({dt})", "returns an empty array of the rule's dtype", isinstance(out, Num) and isinstance(out.dtype, ExtV)
                     and out.dtype.dotted == "numpy." + want and out.shape is not None and out.shape[0] == 0, found=f"{out!r} dtype={getattr(out, 'dtype', None)!r}")
+    # ... and the same rule on the main path (N > 0) for the narrow and integer dtypes: only float32 gives complex64
+    for dt, want in (("int64", "complex128"), ("int16", "complex128"), ("int8", "complex128"), ("uint8", "complex128"), ("uint16", "complex128"),
+                     ("float16", "complex128"), ("bool_", "complex128")):
+        ev = ck.evaluator()
+        x = Num(sp.Symbol("x"), kind="array", shape=(N,), tag="data", dtype=ExtV("numpy." + dt))
+        out = ck.attempt("R3", fi.where, f"real_to_complex({dt} data of length N)", "evaluates", lambda: ev.call(fi, [x], {}), ev=ev, allowed_guards=[])
+        if out is not None:
+            ck.same("R3", fi.where, f"dtype rule [{dt}, N > 0]", "complex64 for float32 input, complex128 otherwise",
+                    isinstance(out, Num) and isinstance(out.dtype, ExtV) and out.dtype.dotted == "numpy." + want, found=repr(getattr(out, "dtype", None)),
+                    expected="numpy." + want, nontrivial=True)
     for dt in ("complex64", "complex128"):
         x = Num(sp.Symbol("x"), kind="array", shape=(N,), tag="data", dtype=ExtV("numpy." + dt))
         try:
